@@ -7,11 +7,14 @@ for m in sorted(glob.glob('/verif/seeded/*/meta.json')):
     c=d['confirmed']; q=d['check_quick']
     ok=c['demo_passes_on_original'] and c['existing_suite_passes_with_change'] and c['demo_fails_with_change']
     msg=(q['first_messages'][0].strip()[:110] if q['first_messages'] else '')
-    rows.append((d['name'],d['property'],'yes' if ok else 'NO','caught' if q['caught'] else 'MISSED',msg,d.get('note','')))
+    fp=d.get('first_pass')
+    first='' if fp is None else ('first pass: caught' if fp['caught'] else 'first pass: missed')
+    run=q.get('check_run',d['property'])
+    rows.append((d['name'],d['property'],'yes' if ok else 'NO',('caught' if q['caught'] else 'MISSED')+(' by '+run if run!=d['property'] else ''),msg,(first+'; ' if first else '')+d.get('note','')))
 out=['# Seeded changes (independent sub-agents: property text + scratch worktree only)','',
  'Each directory holds `patch.diff`, the agent\'s demonstration (`demo_test.go.txt`), its own description (`README.agent.md`), the log of the quick check run with the change applied (`check_quick.log`) and `meta.json`. "confirmed" = I re-ran, in a scratch worktree: demo passes on the original tree, the existing suite passes with the change, the demo fails with the change. None of these changes is ever committed to /repo.','',
  '| change | property | confirmed | quick check | first message | note |','|---|---|---|---|---|---|']
 for r in rows: out.append('| %s | %s | %s | %s | %s | %s |' % r)
-caught=sum(1 for r in rows if r[3]=='caught'); out+=['','%d of %d confirmed changes caught by the quick check.' % (caught,len(rows))]
+caught=sum(1 for r in rows if r[3].startswith('caught')); cross=sum(1 for r in rows if r[3].startswith('caught by')); out+=['','%d of %d confirmed changes caught by a quick check (%d of them by the check of a neighbouring property, named in the column; first-pass results are in the note column).' % (caught,len(rows),cross)]
 open('/verif/seeded/README.md','w').write('\n'.join(out)+'\n')
 print('\n'.join(out[-3:]))
